@@ -203,7 +203,8 @@ pub fn plan(id: &str, tier: &str, seed: u64, round: u64) -> Plan {
                         c.allow_default = false;
                         c.allow_disabled = false;
                         c.allow_generics = false;
-                        c.allow_ci = false;
+                        c.allow_ci = true;
+                        c.allow_prefix = true;
                         c.idents = chunk.to_vec();
                         c.min_variants = chunk.len();
                         c.max_variants = chunk.len();
@@ -392,7 +393,7 @@ pub fn plan(id: &str, tier: &str, seed: u64, round: u64) -> Plan {
                 if fieldless {
                     d.push("VariantArray");
                 }
-                let c = gen::IterCfg { derives: derives(&d), max_variants: 10, fieldless, naming: true, discriminants: fieldless, mask: if i % 3 == 0 { Some((rg.range(0, 9), 0)) } else { None }, ..Default::default() };
+                let c = gen::IterCfg { derives: derives(&d), max_variants: 10, fieldless, naming: true, discriminants: fieldless, dup_names: true, mask: if i % 3 == 0 { Some((rg.range(0, 9), 0)) } else { None }, ..Default::default() };
                 specs.push(gen::gen_iter(&mut rg, &c));
             }
             name_specs(&mut specs, round);
